@@ -119,6 +119,11 @@ def filterPackages (cands : List Pkg) (dq : List Nat) (version : Text) (dep : De
               | none => false
               | some a => dep.satisfies a req
 
+/-- the verdict of `filterPackages` on one candidate taken alone -/
+def acceptsOne (dq : List Nat) (version : Text) (dep : Dep) (allowPin preferPin : Text)
+    (installed : Option Pkg) (p : Pkg) : Bool :=
+  !(filterPackages [p] dq version dep allowPin preferPin installed).isEmpty
+
 /-! ### comparePackages / bestPackage -/
 
 def getDepVersionForName (p : Pkg) (name : Text) : Text :=
